@@ -759,6 +759,7 @@ def random_tree(rng, d, leaves):
 SAMPLE_LEAVES = LEAVES14 + [num('1'), num('4'), num('0.25'), num('1.5'), cell('D1'), cell('E1'),
                             cell('F1'), cell('H1'), txt('x'), txt('a"b'), err('#DIV/0!')]
 MIN_SAMPLED = {'quick': 400, 'thorough': 20000}
+ORDER_TEXTS = ['_', 'a', 'a_b', 'ab', 'A^', 'Z', '[x', 'AB', 'a`']
 
 
 def styles_for(i):
@@ -865,7 +866,7 @@ FLOORS = {
               'function-call': 4100, 'function-as-operand': 1100, 'oracle:determinate': 70000,
               'oracle:error-value': 2800, 'rendering:min': 83000, 'rendering:full': 83000,
               'text-literal': 1300, 'number-literal': 88, 'error-literal': 56, 'route:workbook': 1500,
-              'sampled-trees': 400},
+              'sampled-trees': 400, 'text-order': 486},
     'thorough': {'depth2-one-inner': 43000, 'depth2-two-inner': 32000, 'depth3-chain': 560000,
                  'function-call': 4100, 'oracle:determinate': 400000, 'rendering:min': 640000,
                  'text-literal': 25000, 'route:workbook': 10000, 'sampled-trees': 20000},
@@ -891,6 +892,15 @@ def run(ctx):
                 continue
             env = ENVS[i % len(ENVS)]
             judge_tree(ctx, tree, env, styles_for(i // 16), workbook=(i // 16) % 50 == 0, part=part)
+    # comparisons of text literals whose order depends on how case is folded (punctuation between Z and a)
+    k = 0
+    for a in ORDER_TEXTS:
+        for b in ORDER_TEXTS:
+            for op in ref.COMPARE:
+                k += 1
+                if ctx.mine(k):
+                    judge_tree(ctx, binop(op, txt(a), txt(b)), ENVS[0], styles_for(k), workbook=k % 40 == 0,
+                               part='text-order')
     # sampled deeper trees (a fixed minimum, then until the budget ends)
     rng = ctx.rng
     n = 0
